@@ -44,7 +44,18 @@ func writeManifest() {
 	serves := map[string][]string{}
 	sort.Slice(props, func(i, j int) bool { return props[i].ID < props[j].ID })
 	for _, p := range props {
-		if wip[p.Harness] || p.Sub {
+		if p.Sub {
+			// a sub-check serves its parent property from another harness
+			for _, q := range props {
+				for _, a := range q.Also {
+					if a == p.ID {
+						serves[p.Harness] = append(serves[p.Harness], q.ID+" (clause decided by sub-check "+p.ID+")")
+					}
+				}
+			}
+			continue
+		}
+		if wip[p.Harness] {
 			continue
 		}
 		claimed[p.ID] = true
